@@ -33,5 +33,6 @@ def gen_large(tier, rng):
 FAMILIES = [
     Family("enum_random", "solve", ec.gen_models(ec.entry_enum, 12000, 600000), nontrivial=ec.nontrivial_solve, prop_judge=plevel.judge_solve),
     Family("enum_large", "solve", gen_large, nontrivial=ec.nontrivial_solve, prop_judge=plevel.judge_solve),
+    Family("enum_alldiff_wide", "solve", ec.gen_alldiff_wide(ec.entry_enum, 2000, 60000), nontrivial=ec.nontrivial_solve, prop_judge=plevel.judge_solve),
     Family("enum_structured", "solve", lambda tier, rng: [c for c in ec.structured(tier, rng) if c.endswith("enum")], nontrivial=ec.nontrivial_solve, prop_judge=plevel.judge_solve),
 ]
